@@ -48,4 +48,8 @@ EXTRAS = [
     lambda rep, fb, tier: __import__("vf.rules.lints", fromlist=["x"]).rule_advanced_projected(rep, fb),
     lambda rep, fb, tier: __import__("vf.rules.lints", fromlist=["x"]).rule_ctor_roles(rep, fb),
     lambda rep, fb, tier: __import__("vf.rules.lints", fromlist=["x"]).rule_call_roles(rep, fb),
+    lambda rep, fb, tier: __import__("vf.rules.lints2", fromlist=["x"]).rule_rebased_copy(rep, fb),
+    lambda rep, fb, tier: __import__("vf.rules.lints2", fromlist=["x"]).rule_regularized_bounds(rep, fb),
+    lambda rep, fb, tier: __import__("vf.rules.lints2", fromlist=["x"]).rule_minmax_direction(rep, fb),
+    lambda rep, fb, tier: __import__("vf.rules.lints2", fromlist=["x"]).rule_missing_predicate(rep, fb),
 ]
